@@ -53,6 +53,8 @@ def index_spec(index):
 
 def to_ast(t, memo=None):
     from funsor.cnf import Contraction
+    from funsor.constant import Constant
+    from funsor.delta import Delta
     from funsor.gaussian import Gaussian
     from funsor.integrate import Integrate
     from funsor.tensor import Tensor
@@ -131,6 +133,10 @@ def to_ast(t, memo=None):
         r = ("indep", A(t.fn), t.reals_var, t.bint_var, t.diag_var)
     elif isinstance(t, Align):
         r = ("align", tuple(t.inputs), A(t.arg))
+    elif isinstance(t, Delta):
+        r = ("delta", tuple((n, A(pt), A(ld)) for n, (pt, ld) in t.terms))
+    elif isinstance(t, Constant):
+        r = ("const", tuple(vspec(v) for v in sorted(t.const_vars, key=lambda v: v.name)), A(t.arg))
     elif isinstance(t, Approximate):
         r = ("approx", getattr(t.op, "__name__", "op"), A(t.model), A(t.guide), tuple(sorted(vspec(v) for v in t.approx_vars)))
     elif isinstance(t, Integrate):
